@@ -262,7 +262,10 @@ def closure_insensitivity(eng, tier, seed):
             "violations": violations}
 
 
+from .reader_link import reader_contracts  # noqa: E402  contracts of the namespace reader, proved in their own process (C10R)
+
 EXTRA_CHECKS = [effect_check, closure_insensitivity]
+EXTRA_CHECKS = EXTRA_CHECKS + [reader_contracts]
 LEVEL = "proof"
 NOT_COVERED = [
     "that a malformed file *name* in a lookup directory is the only thing reported from listing (file-name grammar: C15)",
